@@ -4,6 +4,7 @@ import Heathcliff.Proofs.C09F
 import Heathcliff.Proofs.C09G
 import Heathcliff.Proofs.GenNtt
 import Heathcliff.Proofs.GenDwt2
+import Heathcliff.Proofs.GenPolyLazy
 
 /- Property theorems only (statements verbatim; proofs are the helper lemmas of Heathcliff/Proofs). -/
 namespace HC.C09
@@ -326,5 +327,14 @@ example : GenD.transform_to_rev (gd_total (⟨(· + ·), (· - ·), (· * ·), i
 
 /-- non-vacuity: q = 17, N = 4 (2N = 8 divides 16): 2 is a primitive 8th root (2^4 = 16 = -1) -/
 example : IsPrim 4 17 2 := by unfold IsPrim; decide
+
+/-! ### pointwise products on LAZY operands, from the source (`Proofs/GenPolyLazy.lean`) -/
+
+/-- SOURCE TO MATHEMATICS: the generated `dyadic_product_inplace` (src/util/polysmallmod.rs, regenerated on every run) turns position i into
+    comp1[i] · comp2[i] mod q for ANY 64-bit words — in particular for the unreduced output (< 4q) of the lazy forward transform that
+    `multiply_plain` feeds into it; no "operands below q" hypothesis, every modulus with 2 ≤ q < 2^61 -/
+theorem gen_dyadic_product_inplace_any_operands : type_of% @HC.gpl_dyadic_inplace_any := @HC.gpl_dyadic_inplace_any
+/-- the same for `dyadic_product` into a destination with arbitrary old contents -/
+theorem gen_dyadic_product_any_operands : type_of% @HC.gpl_dyadic_any := @HC.gpl_dyadic_any
 
 end HC.C09
